@@ -112,10 +112,11 @@ func (u *upstream) query(q *query) result {
 	var qry promql.Query
 	var err error
 	ctx := context.Background()
+	opts := promql.NewPrometheusQueryOpts(false, time.Duration(q.lb)*time.Millisecond)
 	if q.step == 0 {
-		qry, err = u.eng.NewInstantQuery(ctx, u.db, nil, q.text, msTime(q.start))
+		qry, err = u.eng.NewInstantQuery(ctx, u.db, opts, q.text, msTime(q.start))
 	} else {
-		qry, err = u.eng.NewRangeQuery(ctx, u.db, nil, q.text, msTime(q.start), msTime(q.end), time.Duration(q.step)*time.Millisecond)
+		qry, err = u.eng.NewRangeQuery(ctx, u.db, opts, q.text, msTime(q.start), msTime(q.end), time.Duration(q.step)*time.Millisecond)
 	}
 	if err != nil {
 		return result{err: "parse: " + err.Error()}
